@@ -221,8 +221,14 @@ class chunks(object):
         #
         raChunkMin = np.zeros(decChunkMax-decChunkMin+1, dtype='i4')
         raChunkMax = np.zeros(decChunkMax-decChunkMin+1, dtype='i4')
+        #
+        # A point within marginSize of this one can lie at a declination as
+        # high as abs(dec) + marginSize, where a given difference in ra is a
+        # shorter arc than anywhere in the slice being examined.
+        #
+        cosDecPoint = np.cos(np.deg2rad(min(abs(dec) + marginSize, 90.0)))
         for i in range(decChunkMin, decChunkMax+1):
-            cosDecMin = self.cosDecMin(i)
+            cosDecMin = min(self.cosDecMin(i), cosDecPoint)
             raChunkMin[i-decChunkMin] = int(np.floor((ra - self.raBounds[i][0]) *
                                                      float(self.nRa[i]) /
                                                      (self.raBounds[i][self.nRa[i]] - self.raBounds[i][0])))
